@@ -121,6 +121,15 @@ def configs(tier, seed):
         for en in en_pats:
             for delay in (0, 1e-9):
                 out.append(dict(mode="py", scen="effect_process", K=Ke, lay="none", counts=counts, enable=en, delay=delay))
+    # (d) all three mock processes over the stub scheduler
+    if tier == "quick":
+        mp = [(3, 1, [1, 1, 1, 1]), (2, 2, [1, 1, 1]), (3, 1, [1, 0, 1, 1])]
+    else:
+        mp = [(3, 1, [1, 1, 1, 1]), (3, 2, [1, 1, 1, 1]), (2, 2, [1, 1, 1]), (3, 1, [1, 0, 1, 1]), (3, 1, [0, 1, 1, 0]), (4, 1, [1, 1, 0, 1, 1])]
+    for Km, P, en in mp:
+        for validate in (False, True):
+            for delay in ((0,) if tier == "quick" else (0, 1e-9)):
+                out.append(dict(mode="py", scen="mock_procs", K=Km, lay="none", phases=P, enable=en, delay=delay, validate=validate))
     return out
 
 
@@ -300,6 +309,9 @@ class _SymConst:
         if bv is None:
             return 0
         return SInt(self._eng, (z3.SignExt if shape.signed else z3.ZeroExt)(W - f.width, bv))
+
+    def shape(self):
+        return self._layout
 
     def __getattr__(self, name):
         if name.startswith("_"):
@@ -586,6 +598,8 @@ def _scenario(cfg, eng, env=None):
     from amaranth import Signal
 
     K, scen = cfg["K"], cfg["scen"]
+    if scen == "mock_procs":
+        return _scenario_mock_procs(cfg, eng, env)
     lay_out = LAYOUTS[cfg["lay"]]
     lay_in = [("x", 3)]
     args = cfg.get("args") or {}
@@ -784,6 +798,248 @@ async def _await(trigger):
     return await trigger
 
 
+# ---------------------------------------------------------------------------------------------------------------------
+# (d) the three REAL MethodMock processes together, on a stub scheduler that follows amaranth.sim's documented order
+# ---------------------------------------------------------------------------------------------------------------------
+class _Susp:
+    """trigger state that SUSPENDS the awaiting coroutine; the stub scheduler sends the trigger's result tuple back in."""
+
+    def __init__(self, combination):
+        self.combination = combination
+
+    def __await__(self):
+        res = yield self
+        return res
+
+
+def _scenario_mock_procs(cfg, eng, env=None):
+    """`output_process`, `validate_arguments_process` (optional) and `effect_process` of one real MethodMock run as coroutines over a
+    stub of the simulator's scheduler.  amaranth.sim (PySimEngine.advance / step_design, _PyTriggerState): processes are woken by their
+    changed/edge triggers and run until the design converges BEFORE any testbench runs; an edge trigger delivers the values from before
+    the edge; `TestbenchContext.set` commits at once and runs the woken processes (step_design) before it returns; a process's `set`
+    is committed after the processes of that delta cycle ran.  Per clock cycle t the caller side of the mocked method is symbolic:
+    `called[t][p]`, `arg[t][p]` for p < P combinational phases before the edge (the last one is what the edge sees), and after the
+    edge the values of the next cycle's first phase become visible while `en` is still what it was (registers updated, the mock's
+    testbench has not run yet).  Wake-ups are over-approximated (a process is woken at every event, also when the value it watches
+    happened not to change): harmless for a mocked function without side effects outside MethodMock.effect."""
+    from amaranth.hdl import Value
+    from amaranth.sim._async import ProcessContext, ChangedTrigger, EdgeTrigger, SampleTrigger, DelayTrigger
+    from transactron.lib import Adapter
+    from transactron.testing.method_mock import MethodMock
+
+    K, P, validate = cfg["K"], cfg["phases"], cfg["validate"]
+    en_seq = [bool(x) for x in cfg["enable"]]
+    J = _Judge()
+    T, F = z3.BoolVal(True), z3.BoolVal(False)
+    AW, RW, BAD = 3, 2, 5  # argument width, result width, the argument value that validate_arguments rejects
+    ad = Adapter(name="mocked", i=[("x", AW)], o=[("y", RW)])
+    ncalls = [0]
+
+    def enable():
+        ncalls[0] += 1
+        return en_seq[ncalls[0] - 1] if ncalls[0] <= len(en_seq) else False
+
+    st = dict(t=0, en=False, vres=F, pend_v=None, data_in=None, called=F, arg=z3.BitVecVal(0, AW), applied=[], evals=0)
+
+    def func(x):
+        st["evals"] += 1
+
+        def eff(x=x, t_reg=st["t"]):
+            st["applied"].append((st["t"], t_reg, x))
+
+        MethodMock.effect(eff)
+        return {"y": x + 1}
+
+    def vfunc(x):
+        return x != BAD
+
+    mock = MethodMock(ad, func, validate_arguments=vfunc if validate else None, enable=enable, delay=cfg["delay"])
+    vsig = None
+    if validate:  # one caller: the pair (argument view, result signal) that Adapter.elaborate would create for it
+        from amaranth import Signal
+        from amaranth.lib import data as adata
+        vsig = (Signal(ad.data_out.shape(), name="varg"), Signal(name="vres"))
+        ad.validators.append(vsig)
+
+    def sym_bool(name):
+        if env is not None:
+            return z3.BoolVal(bool(env[name]))
+        eng.vars[name] = z3.Bool(name)
+        return z3.Bool(name)
+
+    def sym_bv(name, w):
+        if env is not None:
+            return z3.BitVecVal(env[name], w)
+        eng.vars[name] = z3.BitVec(name, w)
+        return z3.BitVec(name, w)
+
+    called = [[sym_bool(f"called{t}_{p}") for p in range(P)] for t in range(K + 1)]
+    arg = [[sym_bv(f"arg{t}_{p}", AW) for p in range(P)] for t in range(K + 1)]
+    design = _Design()
+    clk, rst = design.sync.clk, design.sync.rst
+
+    def done_term():
+        return z3.simplify(z3.And(z3.BoolVal(st["en"]), st["called"], st["vres"] if validate else T))
+
+    def as_bool_term(v):
+        if isinstance(v, (bool, int)):
+            return z3.BoolVal(bool(v))
+        if hasattr(v, "e") and z3.is_bool(v.e):
+            return v.e
+        if hasattr(v, "e"):
+            return v.e != 0
+        raise Unsupported(f"validator result {v!r}")
+
+    class World:
+        def value_of(self, v, shape):
+            from amaranth.hdl import ShapeCastable, Const
+
+            v = Value.cast(v)
+            if isinstance(v, Const):
+                return v.value
+            if v is rst:
+                return 0
+            if v is Value.cast(ad.done):
+                bv = z3.simplify(z3.If(done_term(), z3.BitVecVal(1, 1), z3.BitVecVal(0, 1)))
+            elif v is Value.cast(ad.data_out) or (vsig is not None and v is Value.cast(vsig[0])):
+                bv = z3.simplify(st["arg"])
+            elif v is Value.cast(ad.en):
+                return int(st["en"])
+            else:
+                raise Unsupported(f"stub scheduler cannot evaluate {v!r}")
+            if isinstance(shape, ShapeCastable):
+                return shape.from_bits(bv.as_long()) if env is not None else _SymConst(eng, shape, bv)
+            return bv.as_long() if env is not None else SInt(eng, z3.ZeroExt(W - bv.size(), bv))
+
+        def get_value(self, expr):
+            v = Value.cast(expr)
+            return self.value_of(v, v.shape())
+
+        def add_trigger_combination(self, combination, *, oneshot):
+            return _Susp(combination)
+
+        def set_value(self, expr, value):  # TestbenchContext.set (committed at once; step_design follows)
+            if Value.cast(expr) is not Value.cast(ad.en):
+                raise Unsupported(f"stub scheduler: testbench set of {expr!r}")
+            self.en_rise = bool(value) and not st["en"]
+            st["en"] = bool(value)
+            events.append(("en", int(bool(value))))
+
+        def proc_set(self, expr, value):  # ProcessContext.set (queued until the delta cycle commits)
+            v = Value.cast(expr)
+            if v is Value.cast(ad.data_in):
+                st["data_in"] = value
+            elif vsig is not None and v is vsig[1]:
+                st["pend_v"] = as_bool_term(value)
+            else:
+                raise Unsupported(f"stub scheduler: process set of {expr!r}")
+
+        def result_for(self, comb, clk_edge, en_rise, delay):
+            res = []
+            for trg in comb._triggers:
+                if isinstance(trg, (ChangedTrigger, SampleTrigger)):
+                    res.append(self.value_of(trg.value if isinstance(trg, SampleTrigger) else trg.signal, trg.shape))
+                elif isinstance(trg, EdgeTrigger):
+                    if trg.signal is clk:
+                        res.append(bool(clk_edge))
+                    elif trg.signal is Value.cast(ad.en):
+                        res.append(bool(en_rise))
+                    else:
+                        raise Unsupported("stub scheduler: edge trigger on an unknown signal")
+                elif isinstance(trg, DelayTrigger):
+                    res.append(bool(delay))
+                else:
+                    raise Unsupported(f"stub scheduler: trigger {type(trg).__name__}")
+            return tuple(res)
+
+        en_rise = False
+
+        def step_design(self, clk_edge=False):
+            """delta cycles until convergence: every process runs on the current values, then queued sets are committed."""
+            en_rise, self.en_rise = self.en_rise, False
+            for it in range(4):
+                for pr in procs:
+                    pr["ts"] = pr["coro"].send(self.result_for(pr["ts"].combination, clk_edge and it == 0, en_rise and it == 0, False))
+                nv, st["pend_v"] = st["pend_v"], None
+                if nv is None or z3.eq(z3.simplify(nv), z3.simplify(st["vres"])):
+                    return
+                st["vres"] = z3.simplify(nv)
+            raise Unsupported("stub scheduler: validator result does not settle")
+
+    world = World()
+    events = []
+
+    class _Proc:
+        critical = False
+        waits_on = None
+
+    class PCtx(ProcessContext):
+        def set(self, expr, value):
+            world.proc_set(expr, value)
+
+    psim = PCtx(design, world, _Proc())
+    tsim = _context(world)
+    tsim._design = design
+    procs = [dict(coro=mock.output_process(psim))] + ([dict(coro=mock.validate_arguments_process(psim))] if validate else [])
+    for pr in procs:
+        pr["ts"] = pr["coro"].send(None)  # runs to the first await
+    st["called"], st["arg"] = called[0][0], arg[0][0]
+    world.step_design()  # multi-shot `changed` triggers are initially eligible
+    ep = mock.effect_process(tsim)
+    ets = ep.send(None)  # sets en for cycle 0 (-> step_design), then waits for the tick
+    pattern = ""
+    for t in range(K):
+        st["t"] = t
+        for p in range(1, P):  # further combinational phases before the edge
+            st["called"], st["arg"] = called[t][p], arg[t][p]
+            world.step_design()
+        c_t, a_t, en_t = called[t][P - 1], arg[t][P - 1], st["en"]
+        valid_t = (a_t != BAD) if validate else T
+        executed_t = z3.simplify(z3.And(z3.BoolVal(en_t), c_t, valid_t))
+        if validate:
+            J.add(f"edge {t}: the validator result at the edge is validate_arguments(the argument at the edge) while the method is enabled",
+                  z3.Implies(z3.BoolVal(en_t), st["vres"] == valid_t))
+        J.add(f"edge {t}: adapter.done at the edge <=> enabled, requested and (validated) - the executed call", done_term() == executed_t)
+        ret = st["data_in"]
+        if ret is None:
+            J.add(f"edge {t}: a return value was computed if the method executes", z3.Not(executed_t))
+        else:
+            y = ret["y"]
+            yb = z3.Extract(RW - 1, 0, y.e) if hasattr(y, "e") else z3.BitVecVal(int(y) & ((1 << RW) - 1), RW)
+            J.add(f"edge {t}: the return value at the edge is the mocked function applied to the executed call's argument",
+                  z3.Implies(executed_t, yb == z3.Extract(RW - 1, 0, a_t + 1)))
+        sampled_done = world.value_of(ad.done, Value.cast(ad.done).shape())
+        world.step_design(clk_edge=True)  # the clock edge wakes the processes (values from before the edge)
+        st["called"], st["arg"] = called[t + 1][0], arg[t + 1][0]  # registers updated: next cycle's values, `en` unchanged
+        world.step_design()
+        n0 = len(st["applied"])
+        if not isinstance(ets.combination._triggers[0], EdgeTrigger):
+            raise Unsupported("effect_process does not wait for the clock tick")
+        ets = ep.send(tuple([True, 0, 0, sampled_done]))  # TickTrigger result: (clk edge, Const(0), rst, sampled done) -> lowers en, applies effects, awaits the delay
+        if not all(isinstance(trg, DelayTrigger) for trg in ets.combination._triggers):
+            raise Unsupported("effect_process awaits something else than its delay after the edge")
+        world.step_design()  # time passes: nothing changes
+        ets = ep.send(tuple(True for _ in ets.combination._triggers))  # un-freezes, sets en for the next cycle (-> step_design)
+        new = st["applied"][n0:]
+        if len(new) == 1:
+            J.add(f"edge {t}: an effect is applied only if the method executed on this edge", executed_t)
+            x = new[0][2]
+            xb = z3.Extract(AW - 1, 0, x.e) if hasattr(x, "e") else z3.BitVecVal(int(x) & ((1 << AW) - 1), AW)
+            J.add(f"edge {t}: the applied effect is the one registered for the EXECUTED call (its argument, not a later evaluation's)", xb == a_t)
+            pattern += "X"
+        elif not new:
+            J.add(f"edge {t}: the effect is dropped only if the method did not execute on this edge", z3.Not(executed_t))
+            pattern += "-"
+        else:
+            J.add(f"edge {t}: exactly one effect per executed call (applied: {len(new)})", F)
+            pattern += "?"
+    J.add("enable() is consulted once at the start and once per clock cycle", ncalls[0] == K + 1)
+    for pr in procs:
+        pr["coro"].close()
+    ep.close()
+    return pattern, J.ob
+
+
 def _run_py(cfg, ctx):
     eng = Engine(width=W, max_paths=5000)
     paths = eng.run(lambda e: _scenario(cfg, e))
@@ -794,7 +1050,8 @@ def _run_py(cfg, ctx):
     ctx.frames += cfg["K"] * len(paths)
     ctx.steps += cfg["K"] * len(paths)
     desc = f"{cfg['scen']}[{cfg['lay']} outputs, {cfg['K']} cycles" + (f", args {cfg['args']}" if cfg.get("args") else "") + (f", {cfg['style']}" if cfg.get("style") else "") + \
-        (f", effects per cycle {cfg['counts']}, enable() {cfg['enable']}, delay {cfg['delay']}" if cfg["scen"] == "effect_process" else "") + "]"
+        (f", effects per cycle {cfg['counts']}, enable() {cfg['enable']}, delay {cfg['delay']}" if cfg["scen"] == "effect_process" else "") + \
+        (f", {cfg['phases']} phase(s) per cycle, enable() {cfg['enable']}, delay {cfg['delay']}, validate_arguments={cfg['validate']}" if cfg["scen"] == "mock_procs" else "") + "]"
     ctx.prove(f"{desc}: the {len(paths)} explored paths cover every readiness history", [], z3.Or(*[z3.And(*p.pc) if p.pc else z3.BoolVal(True) for p in paths]), None)
     kinds = {}
     for p in paths:
@@ -803,6 +1060,7 @@ def _run_py(cfg, ctx):
     want = {"call": [f"done@{cfg['K'] - 1}", "done@0", "pending"], "call_do": [f"done@{cfg['K'] - 1}", "pending"], "call_try": ["none", "value"],
             "call_result": ["none", "value"], "get_call_result": ["none", "value"], "trigger": ["VVV", "NNN", "VNV"],
             "until_done": ["pending", f"done@{cfg['K'] - 1}:NV"], "until_all_done": ["pending", f"done@{cfg['K'] - 1}:VV"],
+            "mock_procs": ["-" * cfg["K"], "".join("X" if en else "-" for en in cfg.get("enable", [])[:cfg["K"]])],
             "effect_process": ["-" * cfg["K"]] + ["".join("X" if c and en else "-" for c, en in zip(cfg.get("counts", []), cfg.get("enable", [])))]}[cfg["scen"]]
     for k in want:
         ps = kinds.get(k, [])
